@@ -15,7 +15,7 @@ Definition synced (x : mem) : bool :=
   || match syn x with SPendSet _ => true | _ => false end.
 
 Record Win (s : state) : Prop := {
-  w_d1  : forall m, owner s = Some m -> synced (mems s m) = true ->
+  w_d1  : forall m, owner s = Some m -> synced (mems s m) = true -> unsure (mems s m) = false ->
             exists w, W s = Some w /\ last_saved (mems s m) = Some w;
   w_d1b : forall m sv, last_saved (mems s m) = Some sv -> exists w, W s = Some w /\ sv <= w;
   w_d2  : forall m p, phys (mems s m) = Some p -> exists sv, last_saved (mems s m) = Some sv /\ p + guard < sv;
@@ -25,11 +25,15 @@ Record Win (s : state) : Prop := {
   w_d4  : forall m last, owner s = Some m -> syn (mems s m) = SLoaded last -> W s = last;
   w_du  : forall m n, upd (mems s m) = UDecided n -> need_save (mems s m) n = true;
   w_dr  : forall m p l, ur (mems s m) = RDeciding p l -> need_save (mems s m) p = true;
-  w_mx  : forall m n p l, upd (mems s m) = UDecided n -> ur (mems s m) = RDeciding p l -> False
+  w_mx  : forall m n p l, upd (mems s m) = UDecided n -> ur (mems s m) = RDeciding p l -> False;
+  w_su  : forall m n, upd (mems s m) = UDecided n -> unsure (mems s m) = false;
+  w_sr  : forall m p l, ur (mems s m) = RDeciding p l -> unsure (mems s m) = false;
+  w_ls  : forall m, idle_upd (upd (mems s m)) = false \/ idle_ur (ur (mems s m)) = false ->
+            exists sv, last_saved (mems s m) = Some sv
 }.
 
 Lemma win_init iv gap : Win (init iv gap).
-Proof. constructor; cbn; intros; try discriminate. Qed.
+Proof. constructor; cbn; intros; try discriminate. destruct H; discriminate. Qed.
 
 Definition opt_le (a b : option Z) : Prop :=
   match a, b with None, _ => True | Some x, Some y => x <= y | Some _, None => False end.
@@ -40,7 +44,7 @@ Lemma opt_le_refl a : opt_le a a. Proof. destruct a; cbn; lia. Qed.
 Lemma win_set_mem s m x w :
   Win s ->
   (w = W s \/ (owner s = Some m /\ opt_le (W s) w /\ w <> None)) ->
-  (owner s = Some m -> synced x = true -> exists wv, w = Some wv /\ last_saved x = Some wv) ->
+  (owner s = Some m -> synced x = true -> unsure x = false -> exists wv, w = Some wv /\ last_saved x = Some wv) ->
   (forall sv, last_saved x = Some sv -> exists wv, w = Some wv /\ sv <= wv) ->
   (forall p, phys x = Some p -> exists sv, last_saved x = Some sv /\ p + guard < sv) ->
   (forall n, syn x = SPendSet n -> exists sv, last_saved x = Some sv /\ n + guard < sv) ->
@@ -50,12 +54,15 @@ Lemma win_set_mem s m x w :
   (forall n, upd x = UDecided n -> need_save x n = true) ->
   (forall p l, ur x = RDeciding p l -> need_save x p = true) ->
   (forall n p l, upd x = UDecided n -> ur x = RDeciding p l -> False) ->
+  (forall n, upd x = UDecided n -> unsure x = false) ->
+  (forall p l, ur x = RDeciding p l -> unsure x = false) ->
+  (idle_upd (upd x) = false \/ idle_ur (ur x) = false -> exists sv, last_saved x = Some sv) ->
   Win (State w (owner s) (upd_f (mems s) m x) (recs s) (clock s) (interval s) (gap_ms s)).
 Proof.
-  intros [D1 D1b D2 D3s D3u D3r D4 Du Dr Mx] Hw H1 H1b H2 H3s H3u H3r H4 Hu Hr Hmx.
+  intros [D1 D1b D2 D3s D3u D3r D4 Du Dr Mx Su Sr Ls] Hw H1 H1b H2 H3s H3u H3r H4 Hu Hr Hmx Hsu Hsr Hls.
   constructor; cbn; unfold upd_f; intros m'.
   - destruct (Nat.eqb_spec m' m); subst; [exact H1|].
-    intros Ho Hs. destruct Hw as [->|(Ho' & _)]; [apply D1; assumption|congruence].
+    intros Ho Hs Hun. destruct Hw as [->|(Ho' & _)]; [apply D1; assumption|congruence].
   - destruct (Nat.eqb_spec m' m); subst; [exact H1b|].
     intros sv Hsv. destruct (D1b _ _ Hsv) as (w0 & Hw0 & Hle).
     destruct Hw as [->|(_ & Hle' & Hnn)]; [eauto|].
@@ -69,6 +76,9 @@ Proof.
   - destruct (Nat.eqb_spec m' m); subst; [exact Hu|apply Du].
   - destruct (Nat.eqb_spec m' m); subst; [exact Hr|apply Dr].
   - destruct (Nat.eqb_spec m' m); subst; [exact Hmx|apply Mx].
+  - destruct (Nat.eqb_spec m' m); subst; [exact Hsu|apply Su].
+  - destruct (Nat.eqb_spec m' m); subst; [exact Hsr|apply Sr].
+  - destruct (Nat.eqb_spec m' m); subst; [exact Hls|apply Ls].
 Qed.
 
 Arguments Z.shiftr : simpl never.
@@ -88,12 +98,13 @@ Arguments synced : simpl never.
 Lemma win_ext s s' :
   Win s -> W s' = W s -> owner s' = owner s ->
   (forall m, phys (mems s' m) = phys (mems s m) /\ last_saved (mems s' m) = last_saved (mems s m) /\
-             syn (mems s' m) = syn (mems s m) /\ upd (mems s' m) = upd (mems s m) /\ ur (mems s' m) = ur (mems s m)) ->
+             syn (mems s' m) = syn (mems s m) /\ upd (mems s' m) = upd (mems s m) /\ ur (mems s' m) = ur (mems s m) /\
+             unsure (mems s' m) = unsure (mems s m)) ->
   Win s'.
 Proof.
-  intros [D1 D1b D2 D3s D3u D3r D4 Du Dr Mx] HW HO HF.
-  constructor; intros m; destruct (HF m) as (F1 & F2 & F3 & F4 & F5);
-    unfold need_save, synced; rewrite ?HW, ?HO, ?F1, ?F2, ?F3, ?F4, ?F5.
+  intros [D1 D1b D2 D3s D3u D3r D4 Du Dr Mx Su Sr Ls] HW HO HF.
+  constructor; intros m; destruct (HF m) as (F1 & F2 & F3 & F4 & F5 & F6);
+    unfold need_save, synced; rewrite ?HW, ?HO, ?F1, ?F2, ?F3, ?F4, ?F5, ?F6.
   - apply D1.
   - apply D1b.
   - apply D2.
@@ -104,6 +115,9 @@ Proof.
   - apply Du.
   - apply Dr.
   - apply Mx.
+  - apply Su.
+  - apply Sr.
+  - apply Ls.
 Qed.
 
 Lemma save_txn_cases s m o t :
@@ -135,12 +149,8 @@ Ltac inj :=
   | H : SLoaded _ = SLoaded _ |- _ => inversion H; subst; clear H
   end.
 
-Ltac win11 := apply win_set_mem; [assumption | | cbn | cbn | cbn | cbn | cbn | cbn | cbn | cbn | cbn | cbn].
-Ltac stdw := auto; try discriminate; try (intros; discriminate); try solve [unfold need_save in *; cbn; eauto].
-
-(* the restriction of step_r, at the level of step0 *)
-Definition allowed (l : label) : Prop :=
-  match l with LURSave _ ErrApplied | LUpdSave _ ErrApplied => False | _ => True end.
+Ltac win11 := apply win_set_mem; [assumption | | cbn | cbn | cbn | cbn | cbn | cbn | cbn | cbn | cbn | cbn | cbn | cbn | cbn].
+Ltac stdw := auto; try discriminate; try (intros; discriminate); try solve [unfold need_save in *; cbn; eauto]; try solve [intros; congruence].
 
 Lemma need_save_false x n : need_save x n = false -> exists sv, last_saved x = Some sv /\ n + guard < sv.
 Proof.
@@ -160,10 +170,36 @@ Proof. unfold synced. intros ->. cbn. rewrite !orb_true_r. reflexivity. Qed.
 Lemma synced_of_pendset x n : syn x = SPendSet n -> synced x = true.
 Proof. unfold synced. intros ->. rewrite !orb_true_r. reflexivity. Qed.
 
-Lemma win_step0 s l s' :
-  Ctl s -> Cfg s -> Win s -> allowed l -> step0 s l = Some s' -> Win s'.
+Lemma set_physical_unsure x n f : unsure (set_physical x n f) = unsure x.
+Proof. unfold set_physical. destruct (phys x); [destruct (0 <? _)|destruct f]; reflexivity. Qed.
+
+(* refreshLastSavedTime: what the reload establishes *)
+Lemma refreshed_facts s m :
+  Win s -> (exists sv, last_saved (mems s m) = Some sv) ->
+  let y := refreshed (mems s m) (W s) in
+  (owner s = Some m -> synced (mems s m) = true -> exists wv, W s = Some wv /\ last_saved y = Some wv) /\
+  (forall sv, last_saved y = Some sv -> exists wv, W s = Some wv /\ sv <= wv) /\
+  (forall sv, last_saved (mems s m) = Some sv -> exists sv', last_saved y = Some sv' /\ sv <= sv').
 Proof.
-  intros C G I A H. pose proof I as [D1 D1b D2 D3s D3u D3r D4 Du Dr Mx].
+  intros I [sv0 Hs0] y. pose proof I as [D1 D1b _ _ _ _ _ _ _ _ _ _ _].
+  destruct (D1b _ _ Hs0) as (w0 & Hw0 & Hle0).
+  subst y. unfold refreshed, refreshed_saved. cbn [last_saved]. rewrite Hw0, Hs0.
+  destruct (unsure (mems s m)) eqn:U.
+  - rewrite Z.max_r by lia. repeat split.
+    + intros _ _. exists w0. auto.
+    + intros sv Hsv. inversion Hsv; subst. exists sv. split; [reflexivity|lia].
+    + intros sv Hsv. inversion Hsv; subst. exists w0. split; [reflexivity|lia].
+  - repeat split.
+    + intros Ho Hsy. destruct (D1 _ Ho Hsy U) as (w1 & Hw1 & Hl1). rewrite Hw0 in Hw1. rewrite Hs0 in Hl1.
+      inversion Hw1; inversion Hl1; subst. exists w1. auto.
+    + intros sv Hsv. inversion Hsv; subst. exists w0. auto.
+    + intros sv Hsv. inversion Hsv; subst. exists sv. split; [reflexivity|lia].
+Qed.
+
+Lemma win_step0 s l s' :
+  Ctl s -> Cfg s -> Win s -> step0 s l = Some s' -> Win s'.
+Proof.
+  intros C G I H. pose proof I as [D1 D1b D2 D3s D3u D3r D4 Du Dr Mx Su Sr Ls].
   pose proof C as [E2 NONE FL SYN UR PEND]. pose proof guard_pos as Hgp. unfold Cfg in G.
   destruct l; cbn in H.
   - (* LElect *)
@@ -183,11 +219,14 @@ Proof.
     + destruct (Nat.eqb_spec m' m); subst; cbn; apply Du.
     + destruct (Nat.eqb_spec m' m); subst; cbn; apply Dr.
     + destruct (Nat.eqb_spec m' m); subst; cbn; apply Mx.
+    + destruct (Nat.eqb_spec m' m); subst; cbn; apply Su.
+    + destruct (Nat.eqb_spec m' m); subst; cbn; apply Sr.
+    + destruct (Nat.eqb_spec m' m); subst; cbn; apply Ls.
   - (* LValidOff *)
-    inj. apply (win_ext s); auto. intros m'. cbn. unfold upd_f. destruct (Nat.eqb_spec m' m); subst; cbn; auto.
+    inj. apply (win_ext s); auto. intros m'. cbn. unfold upd_f. destruct (Nat.eqb_spec m' m); subst; cbn; auto 10.
   - (* LValidOn *)
     destruct (is_owner s m || negb (busy s m)); [|discriminate]. inj.
-    apply (win_ext s); auto. intros m'. cbn. unfold upd_f. destruct (Nat.eqb_spec m' m); subst; cbn; auto.
+    apply (win_ext s); auto. intros m'. cbn. unfold upd_f. destruct (Nat.eqb_spec m' m); subst; cbn; auto 10.
   - (* LOwnerGone *)
     destruct (owner s) as [m|] eqn:Eo; [|discriminate]. destruct (valid (mems s m)); [discriminate|]. inj.
     constructor; cbn; try discriminate; auto.
@@ -196,7 +235,7 @@ Proof.
     destruct (save_busy (mems s m)); [discriminate|]. inj. unfold set_mem.
     destruct (FL m) as [Hu Hr]; [rewrite Ec; reflexivity|].
     win11; stdw; eauto.
-    all: try solve [ intros Ho Hs; apply D1; [exact Ho|]; unfold synced in *; cbn in *; rewrite Es; exact Hs ].
+    all: try solve [ intros Ho Hs Hun; apply D1; [exact Ho| unfold synced in *; cbn in *; rewrite Es; exact Hs | exact Hun] ].
     all: try solve [ intros last Ho Hl; inj; reflexivity ].
   - (* LSyncSave *)
     destruct (syn (mems s m)) as [|last|] eqn:Es; try discriminate.
@@ -219,7 +258,7 @@ Proof.
       destruct acked; inj; unfold set_mem, set_W; cbn.
       * win11; stdw; eauto.
         all: try solve [ right; repeat split; auto; discriminate ].
-        all: try solve [ intros _ _; exists t; auto ].
+        all: try solve [ intros _ _ _; exists t; auto ].
         all: try solve [ intros sv Hsv; exists t; split; [reflexivity|]; inversion Hsv; lia ].
         all: try solve [ intros n Hn'; inj; exists t; split; [reflexivity|subst t; lia] ].
         all: try solve [ intros p Hp; rewrite Hn in Hp; discriminate ].
@@ -239,7 +278,7 @@ Proof.
     destruct (D3s _ _ Es) as (sv & Hsv & Hlt).
     unfold set_physical. rewrite Hn. cbn.
     win11; stdw; eauto.
-    all: try solve [ intros Ho _; apply D1; [exact Ho|]; eapply synced_of_pendset; eauto ].
+    all: try solve [ intros Ho _ Hun; apply D1; [exact Ho| eapply synced_of_pendset; eauto | exact Hun] ].
     all: try solve [ intros p Hp; inj; eauto ].
   - (* LUpdRead *)
     destruct (upd (mems s m)) eqn:Eu; try discriminate.
@@ -247,23 +286,53 @@ Proof.
     destruct (phys (mems s m)) as [p|] eqn:Ep; [|inj; exact I].
     assert (Hgen : forall n, Win (set_mem s m (with_upd (mems s m) (URead n)))).
     { intros n. unfold set_mem. win11; stdw; eauto.
-      all: try solve [ intros Ho _; apply D1; [exact Ho|]; eapply synced_of_phys; eauto ]. }
+      all: try solve [ intros Ho _ Hun; apply D1; [exact Ho| eapply synced_of_phys; eauto | exact Hun] ].
+      all: try solve [ intros _; destruct (D2 _ _ Ep) as (sv & Hsv & _); eauto ]. }
     destruct (guard <? now - p); [inj; apply Hgen|].
     destruct (_ <? logical (mems s m)); inj; [apply Hgen|exact I].
   - (* LUpdDecide *)
     destruct (upd (mems s m)) as [|next| |] eqn:Eu; try discriminate.
     destruct (save_busy (mems s m)) eqn:Esb; [discriminate|].
     assert (Hsy : synced (mems s m) = true) by (apply synced_of_upd; rewrite Eu; reflexivity).
-    destruct (need_save (mems s m) next) eqn:Ens; inj; unfold set_mem.
-    + win11; stdw; eauto.
-      all: try solve [ intros Ho _; apply D1; assumption ].
-      all: try solve [ intros n Hx; inj; exact Ens ].
-      all: try solve [ intros n p l _ Hx; unfold save_busy in Esb; rewrite Hx in Esb;
-                       destruct (syn (mems s m)); try discriminate; rewrite Eu in Esb; discriminate ].
-    + destruct (need_save_false _ _ Ens) as (sv & Hsv & Hlt).
-      win11; stdw; eauto.
-      all: try solve [ intros Ho _; apply D1; assumption ].
-      all: try solve [ intros n Hx; inj; eauto ].
+    assert (Hex : exists sv, last_saved (mems s m) = Some sv) by (apply Ls; left; rewrite Eu; reflexivity).
+    destruct (refreshed_facts s m I Hex) as (Y1 & Y1b & Yge).
+    assert (Hnr : forall p l, ur (mems s m) = RDeciding p l -> False).
+    { intros p l Hx. unfold save_busy in Esb. rewrite Hx in Esb. destruct (syn (mems s m)); try discriminate; rewrite Eu in Esb; discriminate. }
+    cbv zeta in Y1, Y1b, Yge.
+    remember (refreshed (mems s m) (W s)) as y eqn:Ey.
+    assert (Fy : phys y = phys (mems s m) /\ syn y = syn (mems s m) /\ upd y = upd (mems s m) /\ ur y = ur (mems s m) /\ unsure y = false)
+      by (rewrite Ey; cbn; auto).
+    destruct Fy as (Fp & Fs & Fu & Fr & Fun).
+    destruct (need_save y next) eqn:Ens; inj; unfold set_mem.
+    + apply win_set_mem; [assumption | left; reflexivity | cbn | cbn | cbn | cbn | cbn | cbn | cbn | cbn | cbn | cbn | cbn | cbn | cbn].
+      * intros Ho _ _. apply Y1; assumption.
+      * exact Y1b.
+      * intros p Hp. rewrite ?Fp in Hp. destruct (D2 _ _ Hp) as (sv & Hsv & Hlt). destruct (Yge _ Hsv) as (sv' & Hsv' & Hle). exists sv'. split; [exact Hsv'|lia].
+      * intros n Hx. rewrite ?Fs in Hx. destruct (D3s _ _ Hx) as (sv & Hsv & Hlt). destruct (Yge _ Hsv) as (sv' & Hsv' & Hle). exists sv'. split; [exact Hsv'|lia].
+      * intros n Hx; discriminate.
+      * intros p l Hx. rewrite ?Fr in Hx. destruct (D3r _ _ _ Hx) as (sv & Hsv & Hlt). destruct (Yge _ Hsv) as (sv' & Hsv' & Hle). exists sv'. split; [exact Hsv'|lia].
+      * intros last Ho Hx. rewrite ?Fs in Hx. eapply D4; eauto.
+      * intros n Hx. inj. exact Ens.
+      * intros p l Hx. rewrite ?Fr in Hx. destruct (Hnr _ _ Hx).
+      * intros n p l _ Hx. rewrite ?Fr in Hx. destruct (Hnr _ _ Hx).
+      * intros n _. first [reflexivity | exact Fun].
+      * intros p l _. first [reflexivity | exact Fun].
+      * intros _. destruct Hex as (sv & Hsv). destruct (Yge _ Hsv) as (sv' & Hsv' & _). eauto.
+    + destruct (need_save_false _ _ Ens) as (svn & Hsvn & Hltn).
+      apply win_set_mem; [assumption | left; reflexivity | cbn | cbn | cbn | cbn | cbn | cbn | cbn | cbn | cbn | cbn | cbn | cbn | cbn].
+      * intros Ho _ _. apply Y1; assumption.
+      * exact Y1b.
+      * intros p Hp. rewrite ?Fp in Hp. destruct (D2 _ _ Hp) as (sv & Hsv & Hlt). destruct (Yge _ Hsv) as (sv' & Hsv' & Hle). exists sv'. split; [exact Hsv'|lia].
+      * intros n Hx. rewrite ?Fs in Hx. destruct (D3s _ _ Hx) as (sv & Hsv & Hlt). destruct (Yge _ Hsv) as (sv' & Hsv' & Hle). exists sv'. split; [exact Hsv'|lia].
+      * intros n Hx. inj. exists svn. split; [exact Hsvn|exact Hltn].
+      * intros p l Hx. rewrite ?Fr in Hx. destruct (D3r _ _ _ Hx) as (sv & Hsv & Hlt). destruct (Yge _ Hsv) as (sv' & Hsv' & Hle). exists sv'. split; [exact Hsv'|lia].
+      * intros last Ho Hx. rewrite ?Fs in Hx. eapply D4; eauto.
+      * intros n Hx; discriminate.
+      * intros p l Hx. rewrite ?Fr in Hx. destruct (Hnr _ _ Hx).
+      * intros n p l Hx; discriminate.
+      * intros n Hx; discriminate.
+      * intros p l _. first [reflexivity | exact Fun].
+      * intros _. exists svn. exact Hsvn.
   - (* LUpdSave *)
     destruct (upd (mems s m)) as [| |next|] eqn:Eu; try discriminate.
     set (t := next + interval s) in *.
@@ -272,14 +341,18 @@ Proof.
     destruct (save_txn_cases s m o t) as [(Hs1 & Hack)|(Ho & Hs1 & Hack1 & Hack2 & Hna)]; rewrite Et in *; cbn in Hs1; subst s1.
     + cbn in Hack. subst acked. inj. unfold set_mem.
       win11; stdw; eauto.
-      all: try solve [ intros Ho _; apply D1; assumption ].
-    + assert (o = Ok) by (destruct o; [reflexivity|congruence|destruct A]). subst o.
-      cbn in Hack1. specialize (Hack1 eq_refl). subst acked. inj. unfold set_mem, set_W; cbn.
-      destruct (D1 _ Ho Hsy) as (w0 & Hw0 & Hls).
+      all: try solve [ intros Ho _ Hun; apply D1; assumption ].
+      all: try solve [ intros; exfalso; eapply Mx; eauto ].
+      all: try solve [ intros [Hx|Hx]; [discriminate Hx || (apply Ls; left; exact Hx) | discriminate Hx || (apply Ls; right; exact Hx)] ].
+    + destruct (D1 _ Ho Hsy (Su _ _ Eu)) as (w0 & Hw0 & Hls).
       pose proof (need_save_true_le _ _ _ (Du _ _ Eu) Hls) as Hns.
+      assert (Hw0t : w0 < t) by (subst t; lia).
+      destruct acked.
+      * (* acknowledged *)
+        inj. unfold set_mem, set_W; cbn.
       win11; stdw; eauto.
       all: try solve [ right; repeat split; auto; [rewrite Hw0; cbn; subst t; lia|discriminate] ].
-      all: try solve [ intros _ _; exists t; auto ].
+      all: try solve [ intros _ _ _; exists t; auto ].
       all: try solve [ intros sv Hsv; exists t; split; [reflexivity|]; inversion Hsv; lia ].
       all: try solve [ intros n Hx; inj; exists t; split; [reflexivity|subst t; lia] ].
       all: try solve [ intros p Hp; destruct (D2 _ _ Hp) as (sv & Hsv & Hlt); rewrite Hls in Hsv; inj;
@@ -291,14 +364,37 @@ Proof.
       all: try solve [ intros p l Hx; exfalso; eapply Mx; eauto ].
       all: try solve [ intros last _ Hx; pose proof (SYN m) as Hc; rewrite Hx in Hc; specialize (Hc eq_refl);
                        destruct (FL m) as [Hu' Hr']; [rewrite Hc; reflexivity|]; congruence ].
+      all: try solve [ intros; exfalso; eapply Mx; eauto ].
+      all: try solve [ intros _; exists t; reflexivity ].
+      * (* applied although an error was returned: lastSavedTime stays behind, the uncertainty mark is set *)
+        assert (o = ErrApplied) by (destruct o; [specialize (Hack1 eq_refl); discriminate | congruence | reflexivity]). subst o.
+        inj. unfold set_mem, set_W; cbn.
+        apply win_set_mem; [assumption | right; repeat split; [exact Ho | rewrite Hw0; cbn; lia | discriminate]
+                           | cbn | cbn | cbn | cbn | cbn | cbn | cbn | cbn | cbn | cbn | cbn | cbn | cbn].
+        -- intros _ _ Hun; discriminate Hun.
+        -- intros sv Hsv. rewrite Hls in Hsv. inversion Hsv; subst. exists t. split; [reflexivity|lia].
+        -- intros p Hp. apply D2; exact Hp.
+        -- intros n Hx. apply D3s; exact Hx.
+        -- intros n Hx; discriminate Hx.
+        -- intros p l Hx. apply (D3r _ _ _ Hx).
+        -- intros last _ Hx; pose proof (SYN m) as Hc; rewrite Hx in Hc; specialize (Hc eq_refl);
+           destruct (FL m) as [Hu' Hr']; [rewrite Hc; reflexivity|]; congruence.
+        -- intros n Hx; discriminate Hx.
+        -- intros p l Hx. exfalso. eapply Mx; eauto.
+        -- intros n p l Hx; discriminate Hx.
+        -- intros n Hx; discriminate Hx.
+        -- intros p l Hx. exfalso. eapply Mx; eauto.
+        -- intros [Hx|Hx]; [discriminate Hx | apply Ls; right; exact Hx].
   - (* LUpdSet *)
     destruct (upd (mems s m)) as [| | |next] eqn:Eu; try discriminate.
     destruct (locked (mems s m)) eqn:El; [discriminate|]. inj. unfold set_mem.
     destruct (D3u _ _ Eu) as (sv & Hsv & Hlt).
     assert (Hsy : synced (mems s m) = true) by (apply synced_of_upd; rewrite Eu; reflexivity).
     destruct (set_physical_fields (mems s m) next false) as (F1 & F2 & F3 & F4 & F5 & F6).
-    win11; rewrite ?F1, ?F2, ?F3, ?F4, ?F5, ?F6; stdw; eauto.
-    all: try solve [ intros Ho _; apply D1; assumption ].
+    pose proof (set_physical_unsure (mems s m) next false) as F7.
+    win11; rewrite ?F1, ?F2, ?F3, ?F4, ?F5, ?F6, ?F7; stdw; eauto.
+    all: try solve [ intros Ho _ Hun; apply D1; assumption ].
+    all: try solve [ intros [Hx|Hx]; [discriminate Hx | apply Ls; right; exact Hx] ].
     all: try solve [ intros p; unfold set_physical; destruct (phys (mems s m)) as [p0|] eqn:Ep;
                      [destruct (0 <? _); cbn; intros Hp; inj; eauto | cbn; rewrite Ep; discriminate] ].
     all: try solve [ intros p l Hx; unfold locked in El; rewrite Hx in El; discriminate ].
@@ -311,21 +407,51 @@ Proof.
     destruct ((_ =? 0) && _); [inj; exact I|].
     destruct (gap_ms s <=? _); inj; [exact I|].
     unfold set_mem. win11; stdw; eauto.
-    all: try solve [ intros Ho _; apply D1; [exact Ho|]; eapply synced_of_phys; eauto ].
+    all: try solve [ intros Ho _ Hun; apply D1; [exact Ho| eapply synced_of_phys; eauto | exact Hun] ].
+    all: try solve [ intros _; destruct (D2 _ _ Ep) as (sv & Hsv & _); eauto ].
   - (* LURDecide *)
     destruct (ur (mems s m)) as [|p l0| |] eqn:Er; try discriminate.
     destruct (save_busy (mems s m)) eqn:Esb; [discriminate|].
     assert (Hsy : synced (mems s m) = true) by (apply synced_of_ur; rewrite Er; reflexivity).
-    destruct (need_save (mems s m) p) eqn:Ens; inj; unfold set_mem.
-    + win11; stdw; eauto.
-      all: try solve [ intros Ho _; apply D1; assumption ].
-      all: try solve [ intros p' l' Hx; inj; exact Ens ].
-      all: try solve [ intros n p' l' Hx _; unfold save_busy in Esb; rewrite Hx in Esb;
-                       destruct (syn (mems s m)); discriminate ].
-    + destruct (need_save_false _ _ Ens) as (sv & Hsv & Hlt).
-      win11; stdw; eauto.
-      all: try solve [ intros Ho _; apply D1; assumption ].
-      all: try solve [ intros p' l' Hx; inj; eauto ].
+    assert (Hex : exists sv, last_saved (mems s m) = Some sv) by (apply Ls; right; rewrite Er; reflexivity).
+    destruct (refreshed_facts s m I Hex) as (Y1 & Y1b & Yge).
+    assert (Hnu : forall n, upd (mems s m) = UDecided n -> False).
+    { intros n Hx. unfold save_busy in Esb. rewrite Hx in Esb. destruct (syn (mems s m)); discriminate. }
+    cbv zeta in Y1, Y1b, Yge.
+    remember (refreshed (mems s m) (W s)) as y eqn:Ey.
+    assert (Fy : phys y = phys (mems s m) /\ syn y = syn (mems s m) /\ upd y = upd (mems s m) /\ ur y = ur (mems s m) /\ unsure y = false)
+      by (rewrite Ey; cbn; auto).
+    destruct Fy as (Fp & Fs & Fu & Fr & Fun).
+    destruct (need_save y p) eqn:Ens; inj; unfold set_mem.
+    + apply win_set_mem; [assumption | left; reflexivity | cbn | cbn | cbn | cbn | cbn | cbn | cbn | cbn | cbn | cbn | cbn | cbn | cbn].
+      * intros Ho _ _. apply Y1; assumption.
+      * exact Y1b.
+      * intros q Hp. rewrite ?Fp in Hp. destruct (D2 _ _ Hp) as (sv & Hsv & Hlt). destruct (Yge _ Hsv) as (sv' & Hsv' & Hle). exists sv'. split; [exact Hsv'|lia].
+      * intros n Hx. rewrite ?Fs in Hx. destruct (D3s _ _ Hx) as (sv & Hsv & Hlt). destruct (Yge _ Hsv) as (sv' & Hsv' & Hle). exists sv'. split; [exact Hsv'|lia].
+      * intros n Hx. rewrite ?Fu in Hx. destruct (D3u _ _ Hx) as (sv & Hsv & Hlt). destruct (Yge _ Hsv) as (sv' & Hsv' & Hle). exists sv'. split; [exact Hsv'|lia].
+      * intros q l Hx; discriminate.
+      * intros last Ho Hx. rewrite ?Fs in Hx. eapply D4; eauto.
+      * intros n Hx. rewrite ?Fu in Hx. destruct (Hnu _ Hx).
+      * intros q l Hx. inj. exact Ens.
+      * intros n q l Hx _. rewrite ?Fu in Hx. destruct (Hnu _ Hx).
+      * intros n _. first [reflexivity | exact Fun].
+      * intros q l _. first [reflexivity | exact Fun].
+      * intros _. destruct Hex as (sv & Hsv). destruct (Yge _ Hsv) as (sv' & Hsv' & _). eauto.
+    + destruct (need_save_false _ _ Ens) as (svn & Hsvn & Hltn).
+      apply win_set_mem; [assumption | left; reflexivity | cbn | cbn | cbn | cbn | cbn | cbn | cbn | cbn | cbn | cbn | cbn | cbn | cbn].
+      * intros Ho _ _. apply Y1; assumption.
+      * exact Y1b.
+      * intros q Hp. rewrite ?Fp in Hp. destruct (D2 _ _ Hp) as (sv & Hsv & Hlt). destruct (Yge _ Hsv) as (sv' & Hsv' & Hle). exists sv'. split; [exact Hsv'|lia].
+      * intros n Hx. rewrite ?Fs in Hx. destruct (D3s _ _ Hx) as (sv & Hsv & Hlt). destruct (Yge _ Hsv) as (sv' & Hsv' & Hle). exists sv'. split; [exact Hsv'|lia].
+      * intros n Hx. rewrite ?Fu in Hx. destruct (D3u _ _ Hx) as (sv & Hsv & Hlt). destruct (Yge _ Hsv) as (sv' & Hsv' & Hle). exists sv'. split; [exact Hsv'|lia].
+      * intros q l Hx. inj. exists svn. split; [exact Hsvn|exact Hltn].
+      * intros last Ho Hx. rewrite ?Fs in Hx. eapply D4; eauto.
+      * intros n Hx. rewrite ?Fu in Hx. destruct (Hnu _ Hx).
+      * intros q l Hx; discriminate.
+      * intros n q l _ Hx; discriminate.
+      * intros n Hx. rewrite ?Fu in Hx. destruct (Hnu _ Hx).
+      * intros q l Hx; discriminate.
+      * intros _. exists svn. exact Hsvn.
   - (* LURSave *)
     destruct (ur (mems s m)) as [| |p l0|] eqn:Er; try discriminate.
     set (t := p + interval s) in *.
@@ -334,14 +460,18 @@ Proof.
     destruct (save_txn_cases s m o t) as [(Hs1 & Hack)|(Ho & Hs1 & Hack1 & Hack2 & Hna)]; rewrite Et in *; cbn in Hs1; subst s1.
     + cbn in Hack. subst acked. inj. unfold set_mem.
       win11; stdw; eauto.
-      all: try solve [ intros Ho _; apply D1; assumption ].
-    + assert (o = Ok) by (destruct o; [reflexivity|congruence|destruct A]). subst o.
-      cbn in Hack1. specialize (Hack1 eq_refl). subst acked. inj. unfold set_mem, set_W; cbn.
-      destruct (D1 _ Ho Hsy) as (w0 & Hw0 & Hls).
+      all: try solve [ intros Ho _ Hun; apply D1; assumption ].
+      all: try solve [ intros; exfalso; eapply Mx; eauto ].
+      all: try solve [ intros [Hx|Hx]; [discriminate Hx || (apply Ls; left; exact Hx) | discriminate Hx || (apply Ls; right; exact Hx)] ].
+    + destruct (D1 _ Ho Hsy (Sr _ _ _ Er)) as (w0 & Hw0 & Hls).
       pose proof (need_save_true_le _ _ _ (Dr _ _ _ Er) Hls) as Hns.
+      assert (Hw0t : w0 < t) by (subst t; lia).
+      destruct acked.
+      * (* acknowledged *)
+        inj. unfold set_mem, set_W; cbn.
       win11; stdw; eauto.
       all: try solve [ right; repeat split; auto; [rewrite Hw0; cbn; subst t; lia|discriminate] ].
-      all: try solve [ intros _ _; exists t; auto ].
+      all: try solve [ intros _ _ _; exists t; auto ].
       all: try solve [ intros sv Hsv; exists t; split; [reflexivity|]; inversion Hsv; lia ].
       all: try solve [ intros p' l' Hx; inj; exists t; split; [reflexivity|subst t; lia] ].
       all: try solve [ intros p' Hp; destruct (D2 _ _ Hp) as (sv & Hsv & Hlt); rewrite Hls in Hsv; inj;
@@ -353,38 +483,71 @@ Proof.
       all: try solve [ intros n Hx; exfalso; eapply Mx; eauto ].
       all: try solve [ intros last _ Hx; pose proof (SYN m) as Hc; rewrite Hx in Hc; specialize (Hc eq_refl);
                        destruct (FL m) as [Hu' Hr']; [rewrite Hc; reflexivity|]; congruence ].
+      all: try solve [ intros; exfalso; eapply Mx; eauto ].
+      all: try solve [ intros _; exists t; reflexivity ].
+      * (* applied although an error was returned: lastSavedTime stays behind, the uncertainty mark is set *)
+        assert (o = ErrApplied) by (destruct o; [specialize (Hack1 eq_refl); discriminate | congruence | reflexivity]). subst o.
+        inj. unfold set_mem, set_W; cbn.
+        apply win_set_mem; [assumption | right; repeat split; [exact Ho | rewrite Hw0; cbn; lia | discriminate]
+                           | cbn | cbn | cbn | cbn | cbn | cbn | cbn | cbn | cbn | cbn | cbn | cbn | cbn].
+        -- intros _ _ Hun; discriminate Hun.
+        -- intros sv Hsv. rewrite Hls in Hsv. inversion Hsv; subst. exists t. split; [reflexivity|lia].
+        -- intros q Hp. apply D2; exact Hp.
+        -- intros n Hx. apply D3s; exact Hx.
+        -- intros n Hx. apply D3u; exact Hx.
+        -- intros q l Hx; discriminate Hx.
+        -- intros last _ Hx; pose proof (SYN m) as Hc; rewrite Hx in Hc; specialize (Hc eq_refl);
+           destruct (FL m) as [Hu' Hr']; [rewrite Hc; reflexivity|]; congruence.
+        -- intros n Hx. exfalso. eapply Mx; eauto.
+        -- intros q l Hx; discriminate Hx.
+        -- intros n q l _ Hx; discriminate Hx.
+        -- intros n Hx. exfalso. eapply Mx; eauto.
+        -- intros q l Hx; discriminate Hx.
+        -- intros [Hx|Hx]; [apply Ls; left; exact Hx | discriminate Hx].
   - (* LUREnd *)
     destruct (ur (mems s m)) as [| | |p l0] eqn:Er; try discriminate. inj. unfold set_mem.
     destruct (D3r _ _ _ Er) as (sv & Hsv & Hlt).
     assert (Hsy : synced (mems s m) = true) by (apply synced_of_ur; rewrite Er; reflexivity).
     win11; stdw; eauto.
-    all: try solve [ intros Ho _; apply D1; assumption ].
+    all: try solve [ intros Ho _ Hun; apply D1; assumption ].
     all: try solve [ intros p' Hp; inj; eauto ].
   - (* LGen *)
     destruct (phys (mems s m)) as [p|] eqn:Ep; [|discriminate].
     destruct (negb (locked (mems s m)) && (0 <? count)); [|discriminate]. inj.
-    apply (win_ext s); auto. intros m'. cbn. unfold upd_f. destruct (Nat.eqb_spec m' m); subst; cbn; auto.
+    apply (win_ext s); auto. intros m'. cbn. unfold upd_f. destruct (Nat.eqb_spec m' m); subst; cbn; auto 10.
   - (* LRespond *)
     destruct (nth_error (recs s) i) as [r|]; [|discriminate].
     destruct (Nat.eqb (gm r) m && is_pending r); [|discriminate]. inj.
-    apply (win_ext s); auto.
+    apply (win_ext s); auto. intros m'. cbn. auto 10.
   - (* LReset *)
     destruct (locked (mems s m)) eqn:El; [discriminate|]. inj. unfold set_mem.
     win11; stdw; eauto.
-    all: try solve [ intros Ho Hs; apply D1; [exact Ho|]; unfold synced in *; cbn in Hs;
-                     destruct (phys (mems s m)); [reflexivity|exact Hs] ].
+    all: try solve [ intros Ho Hs Hun; apply D1; [exact Ho| unfold synced in *; cbn in Hs;
+                     destruct (phys (mems s m)); [reflexivity|exact Hs] | exact Hun] ].
   - (* LTermEnd *)
     destruct (locked (mems s m)) eqn:El; [discriminate|].
     destruct (ctl (mems s m)); try discriminate; inj; unfold set_mem; win11; stdw; eauto.
-    all: try solve [ intros Ho Hs; apply D1; [exact Ho|]; unfold synced in *; cbn in Hs;
-                     destruct (phys (mems s m)); [reflexivity|exact Hs] ].
+    all: try solve [ intros Ho Hs Hun; apply D1; [exact Ho| unfold synced in *; cbn in Hs;
+                     destruct (phys (mems s m)); [reflexivity|exact Hs] | exact Hun] ].
+  - (* LUpdAbort *)
+    destruct (upd (mems s m)) as [|next| |] eqn:Eu; try discriminate.
+    destruct (save_busy (mems s m)); [discriminate|]. destruct (unsure (mems s m)) eqn:Un; [|discriminate]. inj. unfold set_mem.
+    win11; stdw; eauto.
+    all: try solve [ intros _ _ Hun; congruence ].
+    all: try solve [ intros [Hx|Hx]; [discriminate Hx | apply Ls; right; exact Hx] ].
+  - (* LURAbort *)
+    destruct (ur (mems s m)) as [|p l0| |] eqn:Er; try discriminate.
+    destruct (save_busy (mems s m)); [discriminate|]. destruct (unsure (mems s m)) eqn:Un; [|discriminate]. inj. unfold set_mem.
+    win11; stdw; eauto.
+    all: try solve [ intros _ _ Hun; congruence ].
+    all: try solve [ intros [Hx|Hx]; [apply Ls; left; exact Hx | discriminate Hx] ].
 Qed.
 
-(* the stored window never decreases (under `allowed`) *)
+(* the stored window never decreases, whatever the storage outcomes *)
 Lemma wmono_step0 s l s' :
-  Ctl s -> Cfg s -> Win s -> allowed l -> step0 s l = Some s' -> opt_le (W s) (W s').
+  Ctl s -> Cfg s -> Win s -> step0 s l = Some s' -> opt_le (W s) (W s').
 Proof.
-  intros C G I A H. pose proof I as [D1 D1b D2 D3s D3u D3r D4 Du Dr Mx].
+  intros C G I H. pose proof I as [D1 D1b D2 D3s D3u D3r D4 Du Dr Mx Su Sr Ls].
   pose proof guard_pos as Hgp. unfold Cfg in G.
   assert (Hrefl : W s' = W s -> opt_le (W s) (W s')) by (intros ->; apply opt_le_refl).
   destruct l; cbn in H.
@@ -412,14 +575,14 @@ Proof.
     destruct (guard <? now - p); [inj; apply Hrefl; reflexivity|].
     destruct (_ <? logical (mems s m)); inj; apply Hrefl; reflexivity.
   - destruct (upd (mems s m)); try discriminate. destruct (save_busy (mems s m)); [discriminate|].
-    destruct (need_save (mems s m) next); inj; apply Hrefl; reflexivity.
+    destruct (need_save (refreshed (mems s m) (W s)) next); inj; apply Hrefl; reflexivity.
   - destruct (upd (mems s m)) as [| |next|] eqn:Eu; try discriminate.
     set (t := next + interval s) in *.
     assert (Hsy : synced (mems s m) = true) by (apply synced_of_upd; rewrite Eu; reflexivity).
     destruct (save_txn s m o t) as [s1 acked] eqn:Et.
     destruct (save_txn_cases s m o t) as [(Hs1 & Hack)|(Ho & Hs1 & Hack1 & Hack2 & Hna)]; rewrite Et in *; cbn in Hs1; subst s1.
     + destruct acked; inj; apply Hrefl; reflexivity.
-    + destruct (D1 _ Ho Hsy) as (w0 & Hw0 & Hls).
+    + destruct (D1 _ Ho Hsy (Su _ _ Eu)) as (w0 & Hw0 & Hls).
       pose proof (need_save_true_le _ _ _ (Du _ _ Eu) Hls) as Hns.
       assert (Hle : opt_le (W s) (Some t)) by (rewrite Hw0; cbn; subst t; lia).
       destruct acked; inj; exact Hle.
@@ -431,14 +594,14 @@ Proof.
     destruct ((_ =? 0) && _); [inj; apply Hrefl; reflexivity|].
     destruct (gap_ms s <=? _); inj; apply Hrefl; reflexivity.
   - destruct (ur (mems s m)); try discriminate. destruct (save_busy (mems s m)); [discriminate|].
-    destruct (need_save (mems s m) p); inj; apply Hrefl; reflexivity.
+    destruct (need_save (refreshed (mems s m) (W s)) p); inj; apply Hrefl; reflexivity.
   - destruct (ur (mems s m)) as [| |p l0|] eqn:Er; try discriminate.
     set (t := p + interval s) in *.
     assert (Hsy : synced (mems s m) = true) by (apply synced_of_ur; rewrite Er; reflexivity).
     destruct (save_txn s m o t) as [s1 acked] eqn:Et.
     destruct (save_txn_cases s m o t) as [(Hs1 & Hack)|(Ho & Hs1 & Hack1 & Hack2 & Hna)]; rewrite Et in *; cbn in Hs1; subst s1.
     + destruct acked; inj; apply Hrefl; reflexivity.
-    + destruct (D1 _ Ho Hsy) as (w0 & Hw0 & Hls).
+    + destruct (D1 _ Ho Hsy (Sr _ _ _ Er)) as (w0 & Hw0 & Hls).
       pose proof (need_save_true_le _ _ _ (Dr _ _ _ Er) Hls) as Hns.
       assert (Hle : opt_le (W s) (Some t)) by (rewrite Hw0; cbn; subst t; lia).
       destruct acked; inj; exact Hle.
@@ -449,4 +612,8 @@ Proof.
     destruct (Nat.eqb (gm r) m && is_pending r); [|discriminate]. inj. apply Hrefl; reflexivity.
   - destruct (locked (mems s m)); [discriminate|]. inj. apply Hrefl; reflexivity.
   - destruct (locked (mems s m)); [discriminate|]. destruct (ctl (mems s m)); try discriminate; inj; apply Hrefl; reflexivity.
+  - destruct (upd (mems s m)); try discriminate. destruct (save_busy (mems s m)); [discriminate|].
+    destruct (unsure (mems s m)); [|discriminate]. inj. apply Hrefl; reflexivity.
+  - destruct (ur (mems s m)); try discriminate. destruct (save_busy (mems s m)); [discriminate|].
+    destruct (unsure (mems s m)); [|discriminate]. inj. apply Hrefl; reflexivity.
 Qed.
